@@ -321,26 +321,65 @@ class Program:
             return any(is_exc(norm(x).split(".")[-1], seen + (name,)) for x in ci.node.bases)
 
         table: Dict[str, Optional[str]] = {}
-        for fi in self.funcs.values():
-            if isinstance(fi.node, ast.Lambda):
-                continue
-            rets = [n for n in ast.walk(fi.node) if isinstance(n, ast.Return)]
-            if not rets:
-                continue
+
+        def consider(name: str, node: ast.AST) -> None:
+            if isinstance(node, ast.Lambda):
+                values = [node.body]
+            else:
+                own = [n for n in ast.walk(node) if isinstance(n, ast.Return)]
+                nested = {id(r) for sub in ast.walk(node) if sub is not node and isinstance(sub, (ast.FunctionDef, ast.Lambda)) for r in ast.walk(sub) if isinstance(r, ast.Return)}
+                values = [r.value for r in own if id(r) not in nested]
+            if not values:
+                return
             classes = set()
-            for r in rets:
-                v = r.value
+            for v in values:
+                if v is None or (isinstance(v, ast.Constant) and v.value is None):
+                    continue  # "no error": the caller tests for None before raising
                 f = v.func if isinstance(v, ast.Call) else None
                 nm = f.id if isinstance(f, ast.Name) else (f.attr if isinstance(f, ast.Attribute) else None)
                 classes.add(nm if nm and is_exc(nm) and nm not in table else None)
             if len(classes) == 1 and None not in classes:
                 c = classes.pop()
                 # two helpers of the same simple name that build different classes: ambiguous, keep neither
-                table[fi.name] = c if table.get(fi.name, c) == c else None
+                table[name] = c if table.get(name, c) == c else None
+
+        for fi in self.funcs.values():
+            if isinstance(fi.node, ast.Lambda):
+                continue
+            consider(fi.name, fi.node)
+            # local factories: a nested `def` or a lambda bound to a name inside the function
+            for sub in ast.walk(fi.node):
+                if sub is not fi.node and isinstance(sub, ast.FunctionDef):
+                    consider(sub.name, sub)
+                elif isinstance(sub, ast.Assign) and len(sub.targets) == 1 and isinstance(sub.targets[0], ast.Name) and isinstance(sub.value, ast.Lambda):
+                    consider(sub.targets[0].id, sub.value)
         self.exc_factories = {k: v for k, v in table.items() if v}
         from . import cfg as _cfg
 
         _cfg.EXC_FACTORIES = dict(self.exc_factories)
+        # `err = SomeError(...)` / `err = factory(...)` ... `raise err`: the class travels with the name
+        for fi in self.funcs.values():
+            if isinstance(fi.node, ast.Lambda):
+                continue
+            binds: Dict[str, List[ast.AST]] = {}
+            for n in ast.walk(fi.node):
+                if isinstance(n, ast.Assign) and len(n.targets) == 1 and isinstance(n.targets[0], ast.Name):
+                    binds.setdefault(n.targets[0].id, []).append(n.value)
+                elif isinstance(n, (ast.AugAssign, ast.AnnAssign, ast.For, ast.NamedExpr)) and isinstance(getattr(n, "target", None), ast.Name):
+                    binds.setdefault(n.target.id, []).append(getattr(n, "value", None))
+                elif isinstance(n, ast.ExceptHandler) and n.name:
+                    binds.setdefault(n.name, []).append(None)
+            for n in ast.walk(fi.node):
+                if isinstance(n, ast.Raise) and isinstance(n.exc, ast.Name):
+                    vals = binds.get(n.exc.id, [])
+                    classes = set()
+                    for v in vals:
+                        if isinstance(v, ast.Constant) and v.value is None:
+                            continue  # a `None` sentinel before the real binding
+                        c = _cfg.exc_class_of(v) if isinstance(v, ast.Call) else None
+                        classes.add(c if c and is_exc(c) else None)
+                    if len(classes) == 1 and None not in classes:
+                        n.exc._exc_class = classes.pop()
 
     def _index_module(self, mi: ModInfo) -> None:
         for st in mi.tree.body:
